@@ -121,6 +121,12 @@ func ForEach(generate GenerateFunc, mapper ForEachFunc, opts ...Option) {
 			panic(v)
 		case _, ok := <-collector:
 			if !ok {
+				// 加工已全部结束：若此前已有 panic 上报，仍需向调用方重新抛出
+				select {
+				case v := <-panicChan.channel:
+					panic(v)
+				default:
+				}
 				return
 			}
 		}
@@ -243,6 +249,14 @@ func mapReduceWithPanicChan(source <-chan any, panicChan *onceChan, mapper Mappe
 		drain(output)
 		panic(v)
 	case v, ok := <-output:
+		// 若此前已有 panic 上报，优先向调用方重新抛出
+		select {
+		case p := <-panicChan.channel:
+			drain(output)
+			panic(p)
+		default:
+		}
+
 		if err := retErr.Load(); err != nil {
 			return nil, err
 		} else if ok {
